@@ -18,7 +18,13 @@ for n in "${names[@]}"; do
   fi
   for c in $checks; do
     out=$(VERIF_REPO="$WT" ./check.sh "$c" quick 2>&1)
-    if echo "$out" | grep -q "^VIOLATION property=$c "; then echo "$n $c: CAUGHT"; else echo "$n $c: MISSED"; miss=1; fi
+    if ! echo "$out" | grep -q "^$c quick: "; then
+      # the check did not finish (harness build broken mid-edit, worker killed under memory pressure): once more
+      out=$(VERIF_REPO="$WT" ./check.sh "$c" quick 2>&1)
+    fi
+    if echo "$out" | grep -q "^VIOLATION property=$c "; then echo "$n $c: CAUGHT"
+    elif ! echo "$out" | grep -q "^$c quick: "; then echo "$n $c: DID-NOT-FINISH $(echo "$out" | grep -m1 -E 'HARNESS|panic|killed|fatal' | cut -c1-120)"; miss=1
+    else echo "$n $c: MISSED"; miss=1; fi
   done
   git -C /repo worktree remove --force "$WT"
   rm -rf "/verif/bin/alt-$(echo "$WT" | md5sum | cut -c1-10)"
